@@ -18,6 +18,10 @@ type Config struct {
 	Preseed map[string][]int `json:"preseed,omitempty"`
 	// Clients > 1: concurrent mode (C14); ops are dealt round-robin.
 	Clients int `json:"clients,omitempty"`
+	// MetaFull, MetaSmall (C11): the encrypting store's two compaction knobs
+	// for this run (0 = the shipped values 10000 and 100)
+	MetaFull  int `json:"metaFull,omitempty"`
+	MetaSmall int `json:"metaSmall,omitempty"`
 	// Files: packable files (chunks, nested bytes schemas, file blob) appended
 	// to the blob pool, so that compositions containing blobpacked really pack
 	Files []c04File `json:"files,omitempty"`
